@@ -94,13 +94,15 @@ class WorkerHarness:
     operation's result.  ``op_gap(op)`` gives the idle ticks before the operation (0 = same instant).
     """
 
-    def __init__(self, entities, workers, do_op, op_gap=None, setup=None, max_events=200_000, max_per_instant=20_000):
+    def __init__(self, entities, workers, do_op, op_gap=None, setup=None, max_events=200_000, max_per_instant=20_000,
+                 after_event=None):
         from happysimulator import Entity, Event, Instant, Simulation
 
         self.ops = []           # OpRec in order of operation start (global execution order)
         self.n_events = 0
         self.status = None
         self._stop_after = None
+        self._after_event = after_event      # optional sampler called after every processed event (before a stop)
         harness = self
         gap_of = op_gap or (lambda op: 0)
 
@@ -135,6 +137,8 @@ class WorkerHarness:
 
     def _on_event(self, event):
         self.n_events += 1
+        if self._after_event is not None:
+            self._after_event(self)
         if self._stop_after is not None and self.n_events >= self._stop_after:
             raise StopAt()
 
